@@ -42,6 +42,45 @@ class Verdict:
         return Verdict(not self.ok, "not(" + self.why + ")")
 
 
+class Undecided:
+    """an obligation whose terms could not be built within the size limit"""
+    ok = False
+    why = "term too large"
+
+    def __init__(self, why="term too large"):
+        self.why = why
+
+    def __bool__(self):
+        return False
+
+    def __and__(self, o):
+        return self
+
+    __rand__ = __and__
+
+    def __or__(self, o):
+        return self
+
+    __ror__ = __or__
+
+    def __invert__(self):
+        return self
+
+
+def _guard(f):
+    import functools
+    from .poly import TermTooLarge
+
+    @functools.wraps(f)
+    def g(*a, **k):
+        try:
+            return f(*a, **k)
+        except TermTooLarge as e:
+            return Undecided(str(e))
+    return g
+
+
+@_guard
 def eq(a, b, rtol=RTOL, atol=ATOL):
     if is_sym(a) or is_sym(b):
         a, b = S.lift_strict(a), S.lift_strict(b)
@@ -59,12 +98,14 @@ def _eq_sr(a, b):
     return r
 
 
+@_guard
 def le(a, b, tol=1e-9):
     if is_sym(a) or is_sym(b):
         return S.lift_strict(a) <= S.lift_strict(b)
     return Verdict(a <= b + tol * max(1.0, abs(a), abs(b)), f"{a!r} > {b!r}")
 
 
+@_guard
 def lt(a, b):
     if is_sym(a) or is_sym(b):
         return S.lift_strict(a) < S.lift_strict(b)
